@@ -406,5 +406,6 @@ func main() {
 			}
 		}})
 	extraDomains(ck)
+	restoredContinuation(ck)
 	drv.Main(ck)
 }
